@@ -8,7 +8,8 @@ from .core import Violation, hyp_run, loop_run, Res, exc_bucket
 PROPERTY = 'C19'
 RULE = ('Hypothesis: two or three classes with attributes of every core type written in a drawn letter case '
         '(optionally one referential attribute at a drawn position, optionally an unknown type) and a sequence of '
-        '1-8 creations through MetaModel.new / MetaClass.new / calling the metaclass, each with a drawn prefix of '
+        '1-8 creations through MetaModel.new / MetaClass.new / calling the metaclass (in a quarter of the cases after the caller '
+        'dropped the metamodel and kept only the class handles), each with a drawn prefix of '
         'positional arguments and a drawn subset of keyword arguments (overlapping allowed); id generator drawn '
         'from IntegerGenerator, UUIDGenerator and a harness IdGenerator subclass replaying a drawn strictly '
         'increasing sequence. Oracle: defaults by type, then positional, then keywords; every defaulted UNIQUE_ID '
@@ -99,7 +100,10 @@ def cases(draw):
     if ref is None and unknown is None and draw(st.integers(0, 3)) == 0:
         return {'classes': classes, 'ref': ref, 'unknown': unknown, 'gen': gen, 'seq': seq, 'creations': creations,
                 'swap': None, 'load': True}
-    return {'classes': classes, 'ref': ref, 'unknown': unknown, 'gen': gen, 'seq': seq, 'creations': creations, 'swap': swap}
+    # the caller may keep nothing but the class handles returned by define_class / find_metaclass
+    drop = swap is None and draw(st.integers(0, 3)) == 0
+    return {'classes': classes, 'ref': ref, 'unknown': unknown, 'gen': gen, 'seq': seq, 'creations': creations, 'swap': swap,
+            'drop': drop}
 
 
 def value_for(attr, ci, ref):
@@ -140,6 +144,14 @@ def run_case(case, res=None):
         ass = m.define_association(1, classes[0]['name'], ['Ref_x9'], True, True, '',
                                    classes[1]['name'], [case['ref']['tgt_attr']], False, True, '')
         ass.formalize()
+        ass = None
+    mcs = [m.find_metaclass(c['name']) for c in classes]
+    dropped = bool(case.get('drop')) and not case.get('load') and case.get('swap') is None
+    if dropped:
+        # only the class handles stay referenced; the classes keep working (and keep using the generator they were given)
+        import gc
+        m = None
+        gc.collect()
     used = set()
     handed_model = []          # for deterministic generators: every value the generator can have produced
     n_uid_total = 0
@@ -187,7 +199,7 @@ def run_case(case, res=None):
         c = classes[cr['cls']]
         attrs = c['attrs']
         has_unknown = any(t.upper() not in gen_schema.CORE_TYPES and n != 'Ref_x9' for n, t in attrs)
-        mc = m.find_metaclass(c['name'])
+        mc = mcs[cr['cls']] if dropped else m.find_metaclass(c['name'])
         # upper bound on generator draws so far: one per non-referential id attribute of every attempt,
         # rejected attempts (unknown type) included
         uid_slots += sum(1 for n, t in attrs if t.upper() == 'UNIQUE_ID' and n != 'Ref_x9')
@@ -197,9 +209,9 @@ def run_case(case, res=None):
                     fail('load-route-instance-missing', 'class %s has fewer instances than INSERT statements' % c['name'])
                 inst = loaded[cr['cls']].pop(0)
                 uid_slots -= sum(1 for n, t in attrs if t.upper() == 'UNIQUE_ID' and n != 'Ref_x9')   # counted in total above
-            elif cr['via'] == 'model':
+            elif cr['via'] == 'model' and not dropped:
                 inst = m.new(c['name'], *cr['pos'], **cr['kw'])
-            elif cr['via'] == 'metaclass':
+            elif cr['via'] in ('metaclass', 'model'):
                 inst = mc.new(*cr['pos'], **cr['kw'])
             else:
                 inst = mc(*cr['pos'], **cr['kw'])
@@ -274,6 +286,8 @@ def run_case(case, res=None):
             cl.append('generator-replaced')
         if loaded is not None:
             cl.append('loader-route')
+        if dropped:
+            cl.append('class-handles-only')
         if case['unknown']:
             cl.append('unknown-type')
         if case['ref']:
